@@ -62,7 +62,7 @@ def default(obj: Any, default_: object = "", *, allow_false: bool = False) -> An
 
 @with_environment
 @liquid_filter
-@functools.lru_cache(maxsize=10)
+@functools.lru_cache(maxsize=10, typed=True)
 def date(  # noqa: PLR0912 PLR0911
     dat: Union[datetime.datetime, str, int],
     fmt: str,
